@@ -9,6 +9,7 @@ import sym
 import spec_tables as S
 from c08 import format_calls
 import charpred as CP
+import sibling as SB
 
 CRATES = ["identity_did"]
 DID = "identity_did::did::CoreDID"
@@ -150,173 +151,152 @@ def run(F, R, tier):
     allowed = {DU + "::new", DU + "::from_base_did_url", DU + "::map", DU + "::try_map"}
     for (p, bi, s) in F.constructions(DU):
         base = p.split("::{closure#")[0]
-        r3.site("DIDUrl{..} constructed in %s" % L.short(p))
-        if F.derived_trait_of(base):
+        r3.note("DIDUrl{..} constructed in %s" % L.short(p))
+        if F.derived_trait_of(base) or base in allowed or L.private_helper_of(F, base, allowed):
             continue
-        r3.require(base in allowed, (base, "constructs-DIDUrl"), "DIDUrl is constructed in %s, which is not a reviewed site" % L.short(base))
+        r3.fail((base, "constructs-DIDUrl"), "DIDUrl is constructed in %s, which is not a reviewed site" % L.short(base))
     fs = F.adt_fields(DU)
     if r3.anchor(fs, DU):
         r3.require(all(f["vis"] != "pub" for f in fs), (DU, "private-fields"), "DIDUrl has public fields")
+    # from_base_did_url, by abstract evaluation (the RelativeDIDUrl setters, the parser's accessors/setters and CoreDID::try_from are
+    # recorded calls): on every accepting path the three segments *as parsed* went through their validating setters ✓, the parser value
+    # was stripped of path/query/fragment before CoreDID::try_from(it) ✓, and the result is {did: that CoreDID, url: the validated url}
     fn = DU + "::from_base_did_url"
-    L.require_tried_before_success(r3, F, fn, [("set_path", REL + "::set_path"), ("set_query", REL + "::set_query"), ("set_fragment", REL + "::set_fragment"),
-                                               ("CoreDID::try_from", re.compile(r"CoreDID as core::convert::TryFrom<.*>>::try_from$|TryFrom::try_from$"))])
-    h = F.hir(fn)
-    if h:
-        env = H.Env(h)
-        for name, part in (("set_path", "path"), ("set_query", "query"), ("set_fragment", "fragment")):
-            for c in H.calls(h, REL + "::" + name):
-                oo = H.origins(H.call_args(c)[1], env, accessors=BASE_ACC)
-                r3.require(oo == {("param", "did_url", part)}, (fn, "segment-arg", part), "%s is not given the parsed %s: %s" % (name, part, sorted(map(str, oo))))
-        clears = {n["name"]: n for n in H.walk(H.root(h)) if n.get("k") == "mcall" and n["name"] in ("set_path", "set_query", "set_fragment") and not (H.fn_name(n) or "").startswith(REL)}
-        r3.site("from_base_did_url clears %s before CoreDID::try_from" % sorted(clears))
-        r3.require(set(clears) == {"set_path", "set_query", "set_fragment"}, (fn, "strip-before-did"), "from_base_did_url does not strip path, query and fragment before building the CoreDID")
-        for nm, n_ in clears.items():
-            arg = H.strip(n_["args"][0])
-            okv = (H.literals(arg) == [""]) if nm == "set_path" else (H.variant_name(arg.get("res", {})) == "None")
-            r3.require(okv, (fn, "strip-value", nm), "%s is not cleared" % nm)
+    if r3.anchor(F.hir(fn), fn):
+        tab = SR.Table(F, fn, opaque=r"RelativeDIDUrl::set_\w+$|did_url_parser::did::DID::\w+$|try_from$", rule=r3)
+        DUP = SR.param("did_url")
+        okf = bool(tab.ok())
+        for q in tab.ok():
+            evs = [e for e in q.events if e.kind == "call"]
+            pos = {id(e): k for k, e in enumerate(evs)}
+            rel = {}
+            for part in ("path", "query", "fragment"):
+                cs = [e for e in evs if re.search(r"RelativeDIDUrl::set_%s$" % part, e.fn or "")]
+                if not r3.require(len(cs) == 1 and q.succeeded(cs[0]) is True, (fn, "missing-before-success", "set_" + part), "from_base_did_url can succeed without RelativeDIDUrl::set_%s having validated the %s" % (part, part)):
+                    okf = False
+                    continue
+                a_ = sym.term(cs[0].args[1])
+                acc = ("call", "did_url_parser::did::DID::" + part, (DUP,))
+                okarg = SR.pure(a_, acc) or (isinstance(a_, tuple) and a_[:2] == ("ctor", "Some") and SR.pure(a_[2], acc))
+                r3.require(okarg, (fn, "segment-arg", part), "set_%s is not given the parsed %s: %s" % (part, part, sym.fmt(a_)))
+                rel[part] = cs[0]
+            tf = [e for e in evs if re.search(r"try_from$", e.fn or "") and e.args and SR.pure(e.args[0], DUP)]
+            if not r3.require(len(tf) == 1 and q.succeeded(tf[0]) is True, (fn, "missing-before-success", "CoreDID::try_from"), "from_base_did_url can succeed without CoreDID::try_from(stripped DID URL) ✓"):
+                okf = False
+                continue
+            cleared = {}
+            for e in evs:
+                m = re.search(r"did_url_parser::did::DID::set_(path|query|fragment)$", e.fn or "")
+                if m and pos[id(e)] < pos[id(tf[0])] and SR.pure(e.args[0], DUP):
+                    v = e.args[1]
+                    cleared[m.group(1)] = (v == "") if m.group(1) == "path" else (isinstance(v, sym.V) and v.name == "None")
+            r3.require(set(cleared) == {"path", "query", "fragment"}, (fn, "strip-before-did"), "from_base_did_url does not strip path, query and fragment before building the CoreDID (stripped: %s)" % sorted(cleared))
+            for part, okv in cleared.items():
+                r3.require(okv, (fn, "strip-value", "set_" + part), "set_%s is not cleared" % part)
+            # the segments are read before they are stripped
+            for part, e in rel.items():
+                strip = [x for x in evs if re.search(r"did_url_parser::did::DID::set_%s$" % part, x.fn or "")]
+                rd = [x for x in evs if (x.fn or "") == "did_url_parser::did::DID::" + part]
+                r3.require(bool(rd) and bool(strip) and pos[id(rd[0])] < pos[id(strip[0])], (fn, "read-before-strip", part), "the %s is read after it was stripped" % part)
+            out = q.ret.fields[0] if isinstance(q.ret, sym.V) and q.ret.fields else None
+            okr = isinstance(out, sym.St) and SR.pure(out.f.get("did"), ("payload", tf[0].result.t, "Ok", 0)) and all(sym.term(out.f.get("url")) == sym.term(e.args[0]) for e in rel.values())
+            r3.require(okr, (fn, "returns"), "from_base_did_url does not return {did: the validated CoreDID, url: the validated RelativeDIDUrl}")
+        r3.site("from_base_did_url: segments validated as parsed, stripped before CoreDID::try_from, result built from both: %s" % okf)
+    # join, folded on representative segments: only a segment starting with '/', '?' or '#' reaches the parser; it is joined onto
+    # the re-parsed self and the result goes through from_base_did_url
     fn = DU + "::join"
-    h = F.hir(fn)
-    if r3.anchor(h, fn):
-        env = H.Env(h)
-        tree, infos = L.exit_infos(h)
-        for e in infos:
-            if not L.is_success_exit(e) and not (e.outcome == "expr"):
-                continue
-            if e.outcome.startswith("Err("):
-                continue
-            delims = set()
-            for c in e.conds:
-                if c[0] == "if" and c[2] is False:
-                    for cj in H.conjuncts(c[1]):
-                        inner, neg = H.negated(cj)
-                        inner = H.strip(inner)
-                        if neg and inner.get("k") == "mcall" and inner["name"] == "starts_with" and H.origins(inner["recv"], env, extra=re.compile(r"as_ref$")) == {("param", "segment")}:
-                            delims |= {x for x in H.literals(inner) if isinstance(x, str)}
-            r3.site("join: success requires segment to start with one of %s" % sorted(delims), e.node.get("sp"))
-            r3.require(delims == {"/", "?", "#"}, (fn, "leading-delimiter"), "join can succeed for a segment that does not start with '/', '?' or '#' (delimiters tested: %s)" % sorted(delims))
-            oo = H.origins(e.node, env)
-            r3.require(oo == {("call", DU + "::from_base_did_url")}, (fn, "via-gate"), "join does not return through from_base_did_url: %s" % sorted(map(str, oo)))
-    h = F.hir(DU + "::parse")
-    if r3.anchor(h, DU + "::parse"):
-        env = H.Env(h)
-        for n, oc in H.exits(h):
-            r3.require(H.origins(n, env) == {("call", DU + "::from_base_did_url")}, (DU + "::parse", "via-gate"), "DIDUrl::parse does not return through from_base_did_url")
-    r3.floor(10)
+    if r3.anchor(F.hir(fn), fn):
+        ev = sym.Evaluator(F, opaque=r"did_url_parser::did::DID::(parse|join)$|to_string$|DIDUrl::from_base_did_url$", inline_depth=4)
+        okj = True
+        nseg = 0
+        for seg, lead in (("", False), ("a", False), (":x", False), ("%2F", False), (" /a", False), ("did:a:b", False), ("a/b?c#d", False), ("\\", False), ("/p", True), ("?q", True), ("#f", True), ("/", True), ("#", True), ("?", True)):
+            try:
+                paths = ev.explore(fn, args=[sym.Sym(("param", "self")), seg])
+            except (sym.Abort, sym.TooManyPaths) as e:
+                r3.fail((fn, "not-evaluable"), "DIDUrl::join could not be evaluated: %s" % e)
+                okj = False
+                break
+            for q in paths:
+                if not q.complete:
+                    r3.fail((fn, "not-evaluable"), "DIDUrl::join: a path could not be evaluated to the end (%s)" % q.note)
+                    okj = False
+                    continue
+                nseg += 1
+                calls = [e for e in q.events if e.kind == "call"]
+                if not lead:
+                    if not r3.require(SR.is_failure(q.ret) and not calls, (fn, "leading-delimiter"), "join(%r) is not rejected up front: a segment that does not start with '/', '?' or '#' reaches the parser (or succeeds)" % seg):
+                        okj = False
+                    continue
+                js = [e for e in calls if (e.fn or "").endswith("DID::join")]
+                if SR.is_success(q.ret) and not SR.is_failure(q.ret):
+                    fb = [e for e in calls if (e.fn or "").endswith("from_base_did_url")]
+                    okp = len(js) == 1 and js[0].args[1] == seg and len(fb) == 1 and SR.pure(fb[0].args[0], ("payload", js[0].result.t, "Ok", 0)) and SR.pure(q.ret, fb[0].result.t)
+                    if not r3.require(okp, (fn, "via-gate"), "join(%r) does not return from_base_did_url(parse(self).join(segment)?)" % seg):
+                        okj = False
+                    base_ok = len(js) == 1 and SR.derives(js[0].args[0], ("param", "self"))
+                    r3.require(base_ok, (fn, "base"), "join does not join the segment onto self")
+            if lead and not any(SR.is_success(q.ret) and not SR.is_failure(q.ret) for q in paths):
+                r3.fail((fn, "leading-delimiter"), "join(%r) can never succeed: a well-formed relative segment is rejected" % seg)
+                okj = False
+        r3.site("join folded on 14 representative segments (%d paths): non-delimited segments rejected before parsing; delimited ones → from_base_did_url(parse(self).join(seg)?): %s" % (nseg, okj))
+    fn = DU + "::parse"
+    if r3.anchor(F.hir(fn), fn):
+        tab = SR.Table(F, fn, opaque=r"DIDUrl::from_base_did_url$|did_url_parser::did::DID::parse$", rule=r3)
+        okp = bool(tab.ok())
+        for q in tab.ok():
+            fb = q.calls(r"DIDUrl::from_base_did_url$")
+            if not r3.require(len(fb) == 1 and SR.pure(q.ret, fb[0].result.t), (fn, "via-gate"), "DIDUrl::parse does not return through from_base_did_url"):
+                okp = False
+        r3.site("DIDUrl::parse returns from_base_did_url(..) on every accepting path: %s" % okp)
+    r3.site("DIDUrl fields private; constructed only in new/from_base_did_url/map/try_map (or private helpers of these)")
+    r3.floor(4)
 
     # ------------------------------------------------------------------ R5 Eq/Ord/Hash agreement
     r5 = R.rule("C10-R5", "T5", "RelativeDIDUrl eq/cmp/hash(Display) read the same three fields through the same projection, same field on both sides, in the order path, query, fragment; DIDUrl composes did then url")
     fields = [f["name"] for f in (F.adt_fields(REL) or [])]
+    r5.require(sorted(fields) == ["fragment", "path", "query"], (REL, "fields"), "RelativeDIDUrl has fields %s; the sibling rules know path, query, fragment" % fields)
+    P_ = lambda x: sym.Sym(("param", x))  # noqa: E731
+
+    def rel(pfx):
+        return sym.St(REL, {"path": sym.V("Some", (P_(pfx + "path"),)), "query": sym.V("Some", (P_(pfx + "query"),)), "fragment": sym.V("Some", (P_(pfx + "fragment"),))})
+    rel_pairs = [(n_, ("param", "s" + n_), ("param", "o" + n_)) for n_ in ("path", "query", "fragment")]
     eqf = (F.find(r"^<identity_did::did_url::RelativeDIDUrl as core::cmp::PartialEq(<.*>)?>::eq$") or ["<RelativeDIDUrl as PartialEq>::eq"])[0]
     cmpf = "<" + REL + " as core::cmp::Ord>::cmp"
-
-    def field_pairs(fn, kind):
-        """[(self field, other field)] for each comparison (==) or `.cmp(..)` call in fn"""
-        h = F.hir(fn)
-        if not r5.anchor(h, fn):
-            return []
-        env = H.Env(h)
-        out = []
-        for n_ in H.walk(H.root(h)):
-            pair = None
-            if kind == "eq" and n_.get("k") == "binary" and n_.get("op") == "Eq":
-                pair = (n_["l"], n_["r"])
-            if kind == "cmp" and n_.get("k") == "mcall" and n_["name"] == "cmp":
-                pair = (n_["recv"], n_["args"][0])
-            if pair:
-                lo = H.origins(pair[0], env)
-                ro = H.origins(pair[1], env)
-                if len(lo) == 1 and len(ro) == 1:
-                    a, b = next(iter(lo)), next(iter(ro))
-                    if a[0] == "param" and b[0] == "param" and len(a) > 2 and len(b) > 2:
-                        sides = {a[1]: a[2], b[1]: b[2]}
-                        out.append((sides.get("self"), sides.get("other"), n_.get("sp"), H.called_fns(pair[0]) == H.called_fns(pair[1])))
-        return out
-    for fn, kind in ((eqf, "eq"), (cmpf, "cmp")):
-        pairs = field_pairs(fn, kind)
-        seq = [p[0] for p in pairs]
-        for sf, of, sp, same_proj in pairs:
-            r5.site("%s: self.%s vs other.%s" % (L.short(fn), sf, of), sp)
-            r5.require(sf == of and sf is not None, (fn, "field-pair", str(sf), str(of)), "%s compares self.%s with other.%s" % (L.short(fn), sf, of), sp)
-            r5.require(same_proj, (fn, "projection", str(sf)), "%s projects the two sides of `%s` differently" % (L.short(fn), sf), sp)
-        r5.require(seq == ["path", "query", "fragment"] and set(seq) == set(fields), (fn, "field-order"), "%s compares fields %s; expected path, query, fragment (all fields of RelativeDIDUrl: %s)" % (L.short(fn), seq, fields))
-    # cmp: lexicographic structure — later fields are compared only when earlier ones are Equal
-    h = F.hir(cmpf)
-    if h:
-        env = H.Env(h)
-        tree = H.Tree(h)
-        for n_ in H.walk(H.root(h)):
-            if n_.get("k") == "mcall" and n_["name"] == "cmp":
-                lo = H.origins(n_["recv"], env)
-                fld = next(iter(lo))[2] if lo and len(next(iter(lo))) > 2 else None
-                guards = []
-                for c in tree.path_conditions(n_):
-                    if c[0] == "if" and c[2] is True:
-                        cc = H.strip(c[1])
-                        if cc.get("k") == "binary" and cc["op"] == "Eq":
-                            guards.append(H.local_name(cc["l"]) or H.local_name(cc["r"]))
-                want = {"path": [], "query": ["path_cmp"], "fragment": ["query_cmp", "path_cmp"]}.get(fld)
-                r5.require(want is not None and sorted(guards) == sorted(want), (cmpf, "lexicographic", str(fld)), "cmp: the %s comparison is evaluated under %s, expected under equality of %s" % (fld, guards, want))
-    # hash = to_string; Display = "{}{}{}" over path, query, fragment
-    for ty, fields_want, tplw in ((REL, [("param", "self", "path"), ("param", "self", "query"), ("param", "self", "fragment")], "{}{}{}"),
-                                 (DU, [("param", "self", "did", "as_str"), ("param", "self", "url")], "{}{}")):
-        hf = "<" + ty + " as core::hash::Hash>::hash"
-        h = F.hir(hf)
-        if r5.anchor(h, hf):
-            ok = any(f.endswith("ToString::to_string") for f in H.called_fns(H.root(h)))
-            r5.site("%s hashes to_string(): %s" % (L.short(hf), ok))
-            r5.require(ok, (hf, "to_string"), "%s does not hash the Display form" % L.short(hf))
-        df = "<" + ty + " as core::fmt::Display>::fmt"
-        h = F.hir(df)
-        if r5.anchor(h, df):
-            env = H.Env(h)
-            fc = [(t, o) for t, o, _ in format_calls(h, env, accessors=re.compile(r"DID::as_str$|CoreDID::as_str$"))]
-            # args through a slightly different lowering: fall back to the arguments of write_fmt
-            good = False
-            for tpl, oo in fc:
-                shape = "".join("{}" if t[0] == "arg" else t[1] for t in tpl)
-                got = [sorted(o) for o in oo]
-                r5.site("%s Display template %r over %s" % (L.short(ty), shape, got))
-                if shape == tplw and [set(g) for g in got] == [{w} for w in [tuple(x) for x in fields_want]]:
-                    good = True
-            r5.require(good, (df, "template"), "%s Display is not %r over %s" % (L.short(ty), tplw, fields_want))
+    if r5.anchor(F.hir(eqf), eqf):
+        ok = SB.check_eq(r5, eqf, SB.explore(F, eqf, [rel("s"), rel("o")], rule=r5), rel_pairs)
+        r5.site("RelativeDIDUrl::eq ⇔ path, query and fragment pairwise equal (same component on both sides): %s" % ok)
+    if r5.anchor(F.hir(cmpf), cmpf):
+        ok = SB.check_cmp(r5, cmpf, SB.explore(F, cmpf, [rel("s"), rel("o")], opaque=r"Ord::cmp$", rule=r5), rel_pairs)
+        r5.site("RelativeDIDUrl::cmp is lexicographic over path, query, fragment: %s" % ok)
+    df = "<" + REL + " as core::fmt::Display>::fmt"
+    if r5.anchor(F.hir(df), df):
+        ok = SB.check_display(r5, df, SB.explore(F, df, [rel("s"), P_("f")], rule=r5), [(n_, ("param", "s" + n_)) for n_ in ("path", "query", "fragment")])
+        r5.site("RelativeDIDUrl Display = path ++ query ++ fragment: %s" % ok)
+    hf = "<" + REL + " as core::hash::Hash>::hash"
+    if r5.anchor(F.hir(hf), hf):
+        ok = SB.check_hash_is_display(r5, hf, SB.explore(F, hf, [rel("s"), P_("state")], opaque=r"to_string$|Hash::hash$", rule=r5))
+        r5.site("RelativeDIDUrl hash = hash(to_string()): %s" % ok)
+    # DIDUrl composes did then url
+    du = lambda pfx: sym.St(DU, {"did": P_(pfx + "did"), "url": P_(pfx + "url")})  # noqa: E731
+    du_pairs = [(n_, ("param", "s" + n_), ("param", "o" + n_)) for n_ in ("did", "url")]
     deq = (F.find(r"^<identity_did::did_url::DIDUrl as core::cmp::PartialEq(<.*>)?>::eq$") or ["<DIDUrl as PartialEq>::eq"])[0]
-    h = F.hir(deq)
-    if r5.anchor(h, deq):
-        env = H.Env(h)
-        tails = [n for n, _ in H.exits(h)]
-        cj = H.conjuncts(tails[0]) if tails else []
-        parts = []
-        for c in cj:
-            c = H.strip(c)
-            if c.get("k") == "mcall" and c["name"] == "eq":
-                parts.append((sorted(H.origins(c["recv"], env, accessors=re.compile(r"DIDUrl::(did|url)$"))), sorted(H.origins(c["args"][0], env, accessors=re.compile(r"DIDUrl::(did|url)$")))))
-            elif c.get("k") == "binary" and c["op"] == "Eq":
-                parts.append((sorted(H.origins(c["l"], env, accessors=re.compile(r"DIDUrl::(did|url)$"))), sorted(H.origins(c["r"], env, accessors=re.compile(r"DIDUrl::(did|url)$")))))
-        r5.site("DIDUrl::eq conjuncts %s" % parts)
-        want = [([("param", "self", "did")], [("param", "other", "did")]), ([("param", "self", "url")], [("param", "other", "url")])]
-        r5.require(parts == want, (deq, "did-and-url"), "DIDUrl::eq is not `did == did && url == url`: %s" % parts)
+    if r5.anchor(F.hir(deq), deq):
+        ok = SB.check_eq(r5, deq, SB.explore(F, deq, [du("s"), du("o")], rule=r5), du_pairs)
+        r5.site("DIDUrl::eq ⇔ did == did ∧ url == url: %s" % ok)
     dcmp = "<" + DU + " as core::cmp::Ord>::cmp"
-    h = F.hir(dcmp)
-    if r5.anchor(h, dcmp):
-        env = H.Env(h)
-        acc = re.compile(r"DIDUrl::(did|url)$")
-        m = H.find_first(h, lambda n: n.get("k") == "match" and n.get("src") == "normal")
-        ok = False
-        if m:
-            sc = H.strip(m["scrut"])
-            first = sc.get("k") == "mcall" and sc["name"] == "cmp" and H.origins(sc["recv"], env, accessors=acc) == {("param", "self", "did")} and H.origins(sc["args"][0], env, accessors=acc) == {("param", "other", "did")}
-            arms = {H.pat_str(a_["pat"]): a_ for a_ in m["arms"]}
-            eq_arm = arms.get("Equal")
-            second = False
-            if eq_arm:
-                b = H.strip(eq_arm["body"])
-                second = b.get("k") == "mcall" and b["name"] == "cmp" and H.origins(b["recv"], env, accessors=acc) == {("param", "self", "url")} and H.origins(b["args"][0], env, accessors=acc) == {("param", "other", "url")}
-            rest = [k for k in arms if k != "Equal"]
-            passthrough = len(rest) == 1 and H.local_name(arms[rest[0]]["body"]) is not None
-            ok = first and second and passthrough
+    if r5.anchor(F.hir(dcmp), dcmp):
+        ok = SB.check_cmp(r5, dcmp, SB.explore(F, dcmp, [du("s"), du("o")], opaque=r"Ord::cmp$|Ord>::cmp$", rule=r5), du_pairs)
         r5.site("DIDUrl::cmp = did.cmp(did) then url.cmp(url): %s" % ok)
-        r5.require(ok, (dcmp, "did-then-url"), "DIDUrl::cmp is not `match did.cmp(did) { Equal => url.cmp(url), ord => ord }`")
-    r5.floor(12)
+    df = "<" + DU + " as core::fmt::Display>::fmt"
+    if r5.anchor(F.hir(df), df):
+        ok = SB.check_display(r5, df, SB.explore(F, df, [du("s"), P_("f")], opaque=r"CoreDID::as_str$|DID::as_str$", rule=r5), [("did", ("param", "sdid")), ("url", ("param", "surl"))],
+                              proj=re.compile(r"(as_ref|as_str|deref|borrow|clone)$"))
+        r5.site("DIDUrl Display = did.as_str() ++ url: %s" % ok)
+    hf = "<" + DU + " as core::hash::Hash>::hash"
+    if r5.anchor(F.hir(hf), hf):
+        ok = SB.check_hash_is_display(r5, hf, SB.explore(F, hf, [du("s"), P_("state")], opaque=r"to_string$|Hash::hash$", rule=r5))
+        r5.site("DIDUrl hash = hash(to_string()): %s" % ok)
+    r5.floor(8)
 
     # ------------------------------------------------------------------ R6 character classes and percent-encoding
     r6 = R.rule("C10-R6", "T7", "character classes equal the W3C DID / RFC 3986 sets; a percent escape is '%' followed by exactly two hex digits in every validator")
